@@ -1,5 +1,6 @@
 //! dv: property-based testing harness for desync on the vsched controlled runtime (see /verif/DESIGN.md).
 pub mod case;
+pub mod decode;
 pub mod gen;
 pub mod interp;
 pub mod norm;
